@@ -606,6 +606,138 @@ Proof.
   apply gps_rec_spec in Hv. cbn [length Nat.add sum fold_right] in Hv. exact Hv.
 Qed.
 
+(* ---------- size vectors, all n and k: exactly the non-increasing k-splits of n, once each ---------- *)
+
+Fixpoint nonincr (l : list nat) : Prop :=
+  match l with
+  | a :: ((b :: _) as r) => b <= a /\ nonincr r
+  | _ => True
+  end.
+
+Lemma nonincr_cons a l : nonincr (a :: l) <-> match l with [] => True | b :: _ => b <= a end /\ nonincr l.
+Proof. destruct l; simpl; tauto. Qed.
+
+Lemma nonincr_zeros a k : nonincr (a :: repeat 0 k).
+Proof.
+  revert a. induction k; intros a; simpl; [exact I|]. split; [lia|]. apply (IHk 0).
+Qed.
+
+Lemma sum_zero_repeat l : sum l = 0 -> l = repeat 0 (length l).
+Proof.
+  induction l as [|a l IH]; simpl; [reflexivity|]. intros H.
+  assert (a = 0) by lia. subst a. rewrite <- IH by (simpl in H; lia). reflexivity.
+Qed.
+
+Lemma nonincr_zero_head l : nonincr (0 :: l) -> sum l = 0.
+Proof.
+  induction l as [|b l IH]; [reflexivity|]. intros H. apply nonincr_cons in H. destruct H as [Hb H].
+  assert (b = 0) by lia. subst b. simpl. apply IH. exact H.
+Qed.
+
+Lemma hd_le_sum b l : sum (b :: l) >= b.
+Proof. simpl. lia. Qed.
+
+Lemma countdown_in m hi lo : lo <= m <= hi -> In m (countdown hi lo).
+Proof. intros H. unfold countdown. rewrite <- in_rev, in_seq. lia. Qed.
+
+Lemma countdown_nodup hi lo : NoDup (countdown hi lo).
+Proof. unfold countdown. apply NoDup_rev. apply seq_NoDup. Qed.
+
+Lemma gps_first_eq slots n prev pre :
+  gps_rec slots true n prev 1 pre = gps_rec slots false n n 1 pre.
+Proof.
+  destruct slots as [|s]; [reflexivity|]. cbn [gps_rec orb].
+  rewrite Nat.leb_refl. rewrite (Nat.min_l (n - 1) n) by lia. reflexivity.
+Qed.
+
+Lemma gps_rec_iff slots : forall n prev pre v, 1 <= n ->
+  (In v (gps_rec slots false n prev 1 pre) <->
+   exists w, v = pre ++ w /\ length w = slots /\ sum w = n /\ nonincr (prev :: w)).
+Proof.
+  induction slots as [|s IH]; intros n prev pre v Hn.
+  - cbn [gps_rec]. split; [intros []|].
+    intros [w [_ [Hl [Hs _]]]]. destruct w; [simpl in Hs; lia | discriminate].
+  - cbn [gps_rec orb]. rewrite in_app_iff. split.
+    + intros [H|H].
+      * destruct (n <=? prev) eqn:E; [|destruct H]. destruct H as [<-|[]].
+        apply Nat.leb_le in E. exists (n :: repeat 0 s).
+        split; [reflexivity|]. split; [simpl; rewrite repeat_length; reflexivity|].
+        split; [simpl; fold (sum (repeat 0 s)); rewrite sum_repeat0; lia|].
+        apply nonincr_cons. split; [exact E | apply nonincr_zeros].
+      * destruct s as [|s']; [destruct H|].
+        apply in_flat_map in H. destruct H as [m [Hm Hv]].
+        apply in_countdown in Hm.
+        apply IH in Hv; [|lia]. destruct Hv as [w' [-> [Hl [Hs Hni]]]].
+        exists (m :: w'). split; [rewrite <- app_assoc; reflexivity|].
+        split; [simpl; lia|]. split; [simpl; fold (sum w'); lia|].
+        apply nonincr_cons. split; [lia | exact Hni].
+    + intros [w [-> [Hl [Hs Hni]]]]. destruct w as [|a w']; [discriminate|].
+      apply nonincr_cons in Hni. destruct Hni as [Ha Hni].
+      simpl in Hl. injection Hl as Hl. simpl in Hs. fold (sum w') in Hs.
+      destruct (Nat.eq_dec (sum w') 0) as [Hz|Hnz].
+      * left. assert (a = n) by lia. subst a.
+        replace (n <=? prev) with true by (symmetry; apply Nat.leb_le; exact Ha).
+        left. rewrite (sum_zero_repeat w' Hz), Hl. reflexivity.
+      * right.
+        assert (Ha1 : 1 <= a).
+        { destruct (Nat.eq_dec a 0) as [->|]; [|lia]. apply nonincr_zero_head in Hni. lia. }
+        destruct s as [|s']; [destruct w'; [simpl in Hnz; lia | discriminate]|].
+        apply in_flat_map. exists a. split.
+        -- apply countdown_in. lia.
+        -- apply IH; [lia|]. exists w'. split; [rewrite <- app_assoc; reflexivity|].
+           split; [exact Hl|]. split; [lia | exact Hni].
+Qed.
+
+Lemma NoDup_flat_map_disjoint {X Y} (f : X -> list Y) l :
+  NoDup l -> (forall x, In x l -> NoDup (f x)) ->
+  (forall x y v, In x l -> In y l -> x <> y -> In v (f x) -> In v (f y) -> False) ->
+  NoDup (flat_map f l).
+Proof.
+  induction 1 as [|a l Ha Hl IH]; intros Hf Hd; simpl; [constructor|].
+  apply NoDup_app_intro.
+  - apply Hf. left. reflexivity.
+  - apply IH; [intros; apply Hf; right; assumption|].
+    intros x y v Hx Hy. apply Hd; right; assumption.
+  - intros v H1 H2. apply in_flat_map in H2. destruct H2 as [y [Hy H2]].
+    apply (Hd a y v); [left; reflexivity | right; assumption | | assumption | assumption].
+    intros ->. contradiction.
+Qed.
+
+Lemma gps_rec_nodup slots : forall n prev pre, 1 <= n -> NoDup (gps_rec slots false n prev 1 pre).
+Proof.
+  induction slots as [|s IH]; intros n prev pre Hn; cbn [gps_rec orb]; [constructor|].
+  apply NoDup_app_intro.
+  - destruct (n <=? prev); [constructor; [intros [] | constructor] | constructor].
+  - destruct s as [|s']; [constructor|].
+    apply NoDup_flat_map_disjoint.
+    + apply countdown_nodup.
+    + intros m Hm. apply in_countdown in Hm. apply IH. lia.
+    + intros x y v Hx Hy Hne H1 H2. apply in_countdown in Hx, Hy.
+      apply gps_rec_iff in H1; [|lia]. apply gps_rec_iff in H2; [|lia].
+      destruct H1 as [w1 [-> _]]. destruct H2 as [w2 [E _]].
+      rewrite <- !app_assoc in E. apply app_inv_head in E. simpl in E. inversion E. contradiction.
+  - intros v H1 H2. destruct (n <=? prev); [|destruct H1]. destruct H1 as [<-|[]].
+    destruct s as [|s']; [destruct H2|].
+    apply in_flat_map in H2. destruct H2 as [m [Hm H2]]. apply in_countdown in Hm.
+    apply gps_rec_iff in H2; [|lia]. destruct H2 as [w [E _]].
+    rewrite <- app_assoc in E. apply app_inv_head in E. simpl in E. inversion E. lia.
+Qed.
+
+(* genPartitionSizes(n, k, 1), for every n >= 1 and k: each non-increasing split of n into k parts
+   (zeros allowed at the end) occurs, exactly once, and nothing else does *)
+Theorem sizes_exact n k szs :
+  1 <= n -> gen_partition_sizes n k 1 = Ok szs ->
+  NoDup szs /\ forall v, In v szs <-> length v = k /\ sum v = n /\ nonincr v.
+Proof.
+  unfold gen_partition_sizes. destruct k as [|k']; [discriminate|]. intros Hn E.
+  assert (E' : szs = gps_rec (S k') false n n 1 []) by (rewrite <- gps_first_eq with (prev := 0); congruence).
+  subst szs. split; [apply gps_rec_nodup; exact Hn|].
+  intros v. rewrite gps_rec_iff by exact Hn. split.
+  - intros [w [-> [Hl [Hs Hni]]]]. simpl. apply nonincr_cons in Hni. tauto.
+  - intros [Hl [Hs Hni]]. exists v. split; [reflexivity|]. split; [exact Hl|]. split; [exact Hs|].
+    apply nonincr_cons. split; [|exact Hni]. destruct v as [|b r]; [exact I|]. simpl in Hs. fold (sum r) in Hs. lia.
+Qed.
+
 (* ---------- well-formedness of the generated options on the stated finite domain ---------- *)
 
 Definition node_eq_dec (a b : node_id) : {a = b} + {a <> b}.
